@@ -544,6 +544,16 @@ def r3_dfs(repo):
                       "test of `%s` and nothing else" % (src(c), neg, extra, arg)))
     top = inner.node.body
     mark_ok = False
+    # form B: every target is marked when it is discovered, under the conditions of the recursive call
+    formb = []
+    for c in rec:
+        arg = src(c.args[0]) if c.args else "?"
+        want = {(s, p) for s, p, t in _leaves(c)}
+        formb.append(any(x == arg and {(s, p) for s, p, t in _leaves(m)} == want and
+                         getattr(m, "lineno", 0) <= getattr(c, "lineno", 0)
+                         for m, x in vis.marks(inner.node)))
+    if rec and all(formb):
+        mark_ok = True
     for m, x in marks:
         if m in top and first_for is not None:
             holder = first_for
@@ -552,8 +562,8 @@ def r3_dfs(repo):
             if holder in top and top.index(m) < top.index(holder):
                 mark_ok = True
     obs.append(Ob(R, "dfs:vertex-marked-before-its-edges-are-followed", _where(fi, inner.node), mark_ok,
-                  "the traversal must mark `%s` unconditionally before the loop over its edges (a cycle otherwise "
-                  "recurses for ever)" % n))
+                  "the traversal must mark `%s` unconditionally before the loop over its edges, or every target when it "
+                  "is discovered (a cycle otherwise recurses for ever)" % n))
     starts = [c for c in _own(fi.node) if _call_of(c, inner.name) and isinstance(c.func, ast.Name)]
     ok = len(starts) == 1 and [src(a) for a in starts[0].args] == [source] and not _leaves(starts[0])
     obs.append(Ob(R, "dfs:starts-at-the-source", _where(fi, starts[0] if starts else None), ok,
@@ -564,6 +574,17 @@ def r3_dfs(repo):
     comp = rets[0].value
     if isinstance(comp, ast.Call) and isinstance(comp.func, ast.Name) and comp.func.id == "set" and len(comp.args) == 1:
         comp = comp.args[0]
+    if vis.kind == "set" and (_is_name(comp, vis.name) or
+                              (isinstance(comp, ast.BinOp) and isinstance(comp.op, ast.Sub) and _is_name(comp.left, vis.name))):
+        # the marked set itself: the source must have been taken out (it is marked again when an edge leads back to it)
+        removed = [c for c in _own(fi.node) if _method_call(c, vis.name, ("discard", "remove")) and
+                   [src(a) for a in c.args] == [source] and not _leaves(c)]
+        minus = isinstance(comp, ast.BinOp) and src(comp.right) in ("{%s}" % source, "set([%s])" % source)
+        obs.append(Ob(R, "dfs:result-is-every-marked-vertex-but-the-source", _where(fi, rets[0]), bool(removed) or minus,
+                      "`%s` returns the marked set; the source is marked whenever an edge leads back to it (cycle, "
+                      "self-loop) and must be taken out (`%s.discard(%s)` / `%s - {%s}`)"
+                      % (src(rets[0]), vis.name, source, vis.name, source)))
+        return obs
     if not isinstance(comp, (ast.SetComp, ast.ListComp, ast.GeneratorExp)) or len(comp.generators) != 1:
         _unknown(R, fi, "result `%s`" % src(comp))
     gen = comp.generators[0]
@@ -999,6 +1020,38 @@ def reachable(graph, start_vertex, dest_vertex):
 '''
 
 
+_DFS_DISCOVERY = '''
+def dfs(graph, source):
+    seen = set()
+
+    def _walk(n):
+        for e in graph.get(n, []):
+            if e.target not in seen:
+                seen.add(e.target)
+                _walk(e.target)
+    _walk(source)
+    seen.discard(source)
+    return seen
+'''
+
+
+def _t_dfs_discovery(tree):
+    V.replace_node(tree, V.find_def(tree, "dfs"), ast.parse(_DFS_DISCOVERY).body[0])
+
+
+def _v_dfs_discovery_bare(tree):
+    V.replace_node(tree, V.find_def(tree, "dfs"),
+                   ast.parse(_DFS_DISCOVERY.replace("    seen.discard(source)\n", "")).body[0])
+
+
+def _v_memo(tree):
+    f = V.find_def(tree, "reachable")
+    tree.body.insert(tree.body.index(f), ast.parse("_LAST = {}").body[0])
+    f.body.insert(1 if isinstance(f.body[0], ast.Expr) else 0,
+                  ast.parse("if _LAST.get('q') == (id(graph), start_vertex, dest_vertex):\n    return _LAST['a']").body[0])
+    f.body.insert(len(f.body) - 1, ast.parse("_LAST.update(q=(id(graph), start_vertex, dest_vertex), a=False)").body[0])
+
+
 def _t_reachable_set_form(tree):
     f = V.find_def(tree, "reachable")
     V.replace_node(tree, f, ast.parse(_REACHABLE_SET_FORM).body[0])
@@ -1060,14 +1113,79 @@ def variants():
         V.Variant("find_sources: expanded vertices are not marked", g, _mk_sub("find_sources", "visited[source] = True", "pass"), {"C19-R6"}),
         V.Variant("find_sources: only the first predecessor is followed", g,
                   _mk_sub("find_sources", "stack.extend(s_sources)", "stack.append(s_sources[0])"), {"C19-R6"}),
+        V.Variant("reachable: memo of the last answer in a module-level dict", g, _v_memo, {"C19-R8"}),
+        V.Variant("dfs: marked set returned as it is (source on a cycle included)", g, _v_dfs_discovery_bare, {"C19-R3"}),
+        V.Variant("twin: dfs marks on discovery and takes the source out", g, _t_dfs_discovery, None, twin=True),
         V.Variant("twin: reachable with a visited set, a domain test on the graph and a stack", g, _t_reachable_set_form, None, twin=True),
         V.Variant("twin: rename locals", g, _t_rename, None, twin=True),
         V.Variant("twin: whole tree reformatted by ast.unparse", None, None, None, twin=True),
     ]
 
 
+# ---------------------------------------------------------------------------------------------------------------
+# R8: the queries keep no state between calls
+
+_CONTAINER_MUTATORS = ("append", "extend", "insert", "pop", "remove", "clear", "update", "add", "discard", "setdefault",
+                       "popitem", "sort", "reverse")
+
+
+def r8_stateless(repo):
+    """An answer is a function of the arguments' current contents.  The graphs are plain dicts that the only client in
+    the repository (is_combination_feasible) updates in place between two queries, so state kept between calls - a
+    module-level memo, a mutable default - makes a later answer depend on an earlier graph."""
+    R = "C19-R8"
+    m = repo.modules.get(GU)
+    if m is None:
+        raise AnalysisError("module %s not found" % GU, rule=R, anchor=GU)
+    module_names = set()
+    for st in m.tree.body:
+        if isinstance(st, (ast.Assign, ast.AnnAssign, ast.AugAssign)):
+            for t in (st.targets if isinstance(st, ast.Assign) else [st.target]):
+                module_names |= {x.id for x in ast.walk(t) if isinstance(x, ast.Name)}
+    obs = []
+    for qual, fi in sorted(repo.functions.items()):
+        if fi.module is not m or fi.outer is not None:
+            continue
+        bad = []
+        local_binds = set(fi.params)
+        for n in ast.walk(fi.node):
+            if isinstance(n, ast.Global):
+                bad.append("global %s" % ", ".join(n.names))
+            if isinstance(n, (ast.Assign, ast.AugAssign, ast.For, ast.With, ast.NamedExpr, ast.comprehension)):
+                tg = n.targets if isinstance(n, ast.Assign) else \
+                    [getattr(n, "target", None)] if not isinstance(n, ast.With) else [i.optional_vars for i in n.items]
+                for t in tg:
+                    if t is not None:
+                        local_binds |= {x.id for x in ast.walk(t) if isinstance(x, ast.Name) and
+                                        isinstance(x.ctx, ast.Store)}
+        for n in ast.walk(fi.node):
+            if isinstance(n, ast.Call) and isinstance(n.func, ast.Attribute) and n.func.attr in _CONTAINER_MUTATORS and \
+                    isinstance(n.func.value, ast.Name) and n.func.value.id in module_names - local_binds:
+                bad.append(src(n))
+            if isinstance(n, (ast.Assign, ast.AugAssign, ast.Delete)):
+                for t in (n.targets if not isinstance(n, ast.AugAssign) else [n.target]):
+                    if isinstance(t, (ast.Subscript, ast.Attribute)):
+                        root = t
+                        while isinstance(root, (ast.Subscript, ast.Attribute)):
+                            root = root.value
+                        if isinstance(root, ast.Name) and root.id in module_names - local_binds:
+                            bad.append(src(n))
+        args = fi.node.args
+        for d in list(args.defaults) + [d for d in args.kw_defaults if d is not None]:
+            if isinstance(d, (ast.List, ast.Dict, ast.Set, ast.ListComp, ast.DictComp, ast.SetComp)) or \
+                    (isinstance(d, ast.Call) and isinstance(d.func, ast.Name) and
+                     d.func.id in ("list", "dict", "set", "defaultdict", "OrderedDict", "deque")):
+                bad.append("mutable default %s" % src(d))
+        obs.append(Ob(R, "%s:keeps-no-state-between-calls" % fi.name, _where(fi), not bad,
+                      "%s writes state that survives the call: %s; the graphs handed to these queries are updated in place "
+                      "between queries, an answer must depend on the arguments alone" % (fi.name, bad)))
+    return obs
+
+
 def rules():
     return [
+        RuleSpec("C19-R8", "the queries keep no state between calls", 10, r8_stateless,
+                 "no global statement, no store or in-place update of a module-level name, no mutable default"),
         RuleSpec("C19-R1", "worklist searches with a boolean answer (reachable, connected)", 14, r1_boolean_searches,
                  "seed, complete expansion, push iff unvisited + mark, positive answer only for the destination, "
                  "negative only at exhaustion; connected follows edges both ways"),
